@@ -25,6 +25,9 @@ func TestC19(t *testing.T) {
 	if err != nil {
 		t.Fatal(err)
 	}
+	for _, km := range shippedKindMismatch {
+		rep.Violation("enum="+km+" what=kind", "a shipped enum that the MAVLink definitions declare as a bitmask is generated as an ordinary enum (or the other way round): combinations of its flags cannot be rendered as names", km)
+	}
 	npk := 0
 	for _, p := range pkgs {
 		if len(p.Enums) > 0 {
